@@ -13,6 +13,11 @@ Space (every member is visited, nothing sampled)
     two-rich family) x both smart_factorization settings x all token strings of length <= L (members and
     non-members).  One case is a short history on one parser object: construct, is_ambiguous(), all
     parses, is_ambiguous() again.
+  x call sequences on ONE parser object (sized / blank spaces; thorough also follow2): 2-3 calls over
+    {plain parse, parse(start_symbol_name=X) for every other non-terminal X} x {shortest sentence, shortest
+    non-sentence}, ending with a plain parse, each sequence on a freshly constructed parser.  Every plain
+    parse is judged by the language of the constructor's start symbol regardless of the calls before it
+    (an overridden call carries no obligation).
 
 Oracle: independent nullable / FIRST / FOLLOW / predict sets (models.grammar) decide "LL(1) as written";
 the reference language Lang_<=L(E) is a bounded fixpoint over sets of token tuples.
@@ -22,6 +27,8 @@ the reference language Lang_<=L(E) is a bounded fixpoint over sets of token tupl
   (b) is_ambiguous() False in a mode  =>  the same language obligation in that mode; when both modes are
       obliged they return the same tree.
 """
+
+import itertools
 
 from mc import llharness as H
 from models import grammar as G
@@ -60,23 +67,31 @@ REQUIRED_FEATURES = ["ref:ll1-as-written", "ref:not-ll1-as-written", "impl:table
                      "grammar:epsilon-alternative-before-token-alternative", "family:follow",
                      "order:start-symbol-last", "grammar:follow-dependency-chain",
                      "family:wide", "grammar:more-than-5-alternatives-with-one-first-symbol",
-                     "family:diverge", "prefix-family:non-monotone-divergence"]
+                     "family:diverge", "prefix-family:non-monotone-divergence",
+                     "family:blank", "config:skip_tokens-empty", "config:skip_tokens-None",
+                     "config:skip_tokens-SPACE", "config:sentence-with-blank-token",
+                     "history:override-then-plain-parse", "history:override-call-returned-tree",
+                     "history:override-call-failed"]
 
 _SPACES = {
     # (kind, params..., input length, shards)
     "quick": [("sized", "EA", "ab", 2, 2, 5, 4, 16), ("sized", "EAB", "a", 2, 3, 6, 4, 48),
               ("follow", "xyb", 3, True, True, False, 3, 160, False),
-              ("wide", "pqzcdefgh", 0, 0, 0, 0, 3, 8), ("diverge", "pabcdxy", 0, 0, 0, 0, 3, 8)],
+              ("wide", "pqzcdefgh", 0, 0, 0, 0, 3, 8), ("diverge", "pabcdxy", 0, 0, 0, 0, 3, 8),
+              ("blank", "EA", "blank", 2, 2, 4, 4, 16)],
     "thorough": [("sized", "EA", "ab", 3, 3, 6, 5, 32), ("sized", "EA", "ab", 3, 3, 7, 4, 160),
                  ("sized", "EAB", "a", 2, 3, 6, 5, 64), ("sized", "EAB", "ab", 2, 2, 5, 4, 32),
                  ("follow", "xyb", 3, False, True, False, 4, 400, True),
                  ("follow", "xy", 3, False, False, True, 4, 120, True),
                  ("follow2", "xy", 0, 0, 0, 0, 4, 64),
                  ("prefix", "ab", True, 4, 0, 0, 5, 64), ("wide", "pqzcdefgh", 0, 0, 0, 0, 4, 48),
-                 ("diverge", "pabcdxy", 0, 0, 0, 0, 4, 24)],
+                 ("diverge", "pabcdxy", 0, 0, 0, 0, 4, 24), ("blank", "EA", "blank", 2, 2, 5, 5, 32)],
 }
 # spaces explored in both insertion orders of the productions dict
 _BOTH_ORDERS = ("sized", "follow2")
+# call sequences on one parser object: {tier: {space kind: longest sequence}}; the first sized space (E, A)
+# also gets the sequences of three calls in the quick tier
+_SEQ_LEN = {"quick": {"sized": 2, "blank": 2}, "thorough": {"sized": 3, "follow2": 3, "blank": 3}}
 
 
 def _space_gen(sp, k, K):
@@ -96,6 +111,10 @@ def _space_gen(sp, k, K):
     if kind == "wide":
         cfg = G.letters_cfg(sp[1])
         return cfg, sp[6], (g for j, g in enumerate(G.family_wide(cfg.terms)) if j % K == k)
+    if kind == "blank":
+        _, nts, key, ma, ml, ms, L, _ = sp
+        cfg = G.blank_cfg()
+        return cfg, L, G.enum_sized(tuple(nts), ("a", "SPACE"), ma, ml, ms, (k, K))
     if kind == "diverge":
         cfg = G.letters_cfg(sp[1])
         return cfg, sp[6], (g for j, g in enumerate(G.family_diverge(cfg.terms)) if j % K == k)
@@ -123,6 +142,14 @@ def bounds(tier):
                         "one_representative_per_terminal_renaming": canonical,
                         "rich_symbol_in_own_alternatives_behind_terminal": self_ref,
                         "grammars": "counted at run time (feature family:follow)", "input_len_max": L})
+        elif sp[0] == "blank":
+            _, nts, key, ma, ml, ms, L, _ = sp
+            out.append({"space": "sized x constructor option skip_tokens (tokenizer with SPACE and COMMENT groups; "
+                                 "SPACE is a terminal of the grammars)", "non_terminals": list(nts),
+                        "terminals": ["a", "SPACE"], "skip_tokens_values":
+                            [repr(G.skip_value(o)) for o in _skip_options(tier)],
+                        "max_alternatives": ma, "max_alt_len": ml, "max_total_size": ms,
+                        "grammars": G.count_sized(len(nts), 2, ma, ml, ms), "input_len_max": L})
         elif sp[0] == "diverge":
             out.append({"space": "non-monotone-divergence family (three alternatives with one first symbol, "
                                  "all six orders) under obligation (b)", "terminals": list(sp[1]),
@@ -140,7 +167,17 @@ def bounds(tier):
             out.append({"space": "two-rich-one-helper family", "terminals": list(sp[1]), "dict_orders": 2,
                         "grammars": "counted at run time (feature family:follow2)", "input_len_max": sp[6]})
     return {"spaces": out, "modes": ["smart_factorization=True", "smart_factorization=False"],
-            "start_symbol": "E"}
+            "start_symbol": "E",
+            "call_sequences_on_one_parser": {"longest_sequence_per_space": _SEQ_LEN[tier],
+                                             "first_sized_space_quick": 3,
+                                             "calls": "plain parse / parse(start_symbol_name=X) for every other "
+                                                      "non-terminal X, shortest sentence and shortest non-sentence "
+                                                      "each; sequences end with a plain parse and contain an "
+                                                      "override; every sequence on a fresh parser"}}
+
+
+def _skip_options(tier):
+    return G.SKIP_OPTIONS if tier == "thorough" else G.SKIP_OPTIONS[:5]
 
 
 def shards(tier):
@@ -187,12 +224,47 @@ def _machine_state(p):
         return None
 
 
-def check_grammar(cfg, start, prods, L, inputs, acc, modes=(True, False)):
-    """Explore one case (one grammar, one insertion order).  -> (features, nontrivial, outcome label,
-    number of compared parses); a grammar outside the quantifier is only labelled."""
+_ABSENT = "absent"      # the constructor argument skip_tokens is not given at all
+
+
+def _call_sequences(pm, start, inputs, skipped, lang_all, seq_len):
+    """Call sequences of length 2..seq_len on ONE parser object that end with a plain parse() and contain
+    at least one parse(text, start_symbol_name=X), X another non-terminal.  A call is (X or None, tokens);
+    the texts are the first sentence and the first non-sentence, in the (shortest first) input list of the
+    case, of the symbol the call starts from.  -> list of sequences."""
+    def texts(sym):
+        lg = lang_all[sym]
+        sent = non = None
+        for toks in inputs:
+            names = tuple(n for n, _ in toks if n not in skipped)
+            if names in lg:
+                if sent is None:
+                    sent = toks
+            elif non is None:
+                non = toks
+            if sent is not None and non is not None:
+                break
+        return [t for t in (sent, non) if t is not None]
+    plain = [(None, t) for t in texts(start)]
+    over = [(x, t) for x in pm if x != start for t in texts(x)]
+    seqs = [(o, pl) for o in over for pl in plain]
+    if seq_len >= 3:
+        calls = plain + over
+        seqs += [(c1, c2, pl) for c1 in calls for c2 in calls if c1[0] is not None or c2[0] is not None
+                 for pl in plain]
+    return seqs
+
+
+def check_grammar(cfg, start, prods, L, inputs, acc, modes=(True, False), skip=_ABSENT, seq_len=0,
+                  only_sequence=None):
+    """Explore one case (one grammar, one insertion order, one value of skip_tokens).  -> (features,
+    nontrivial, outcome label, number of compared parses); a grammar outside the quantifier is only labelled.
+    ``seq_len`` >= 2: additionally the call sequences of _call_sequences, each on a freshly constructed
+    parser; ``only_sequence``: replay of one recorded sequence."""
     pm = dict(prods)
     if G.left_cycle(pm):
         return ["outside:left-recursive"], False, "outside", 0
+    skipped = cfg.effective_skip(None if skip == _ABSENT else skip)
     terms = set(cfg.terms)
     ll1 = G.is_ll1(pm, start)
     feats, has_nullable = _shape_feats(pm)
@@ -204,16 +276,31 @@ def check_grammar(cfg, start, prods, L, inputs, acc, modes=(True, False)):
     out = []
     done = {}          # smart -> machine state of an obliged mode already explored
 
+    if skip != _ABSENT:
+        feats.append("config:skip_tokens-" + ("None" if skip is None else
+                                              ("empty" if not skip[1] else "+".join(skip[1]))))
+    lang_all = None
+    wrong_fresh = set()
+    # violations seen under an explicit skip_tokens value name that value in their signature
+    opt = "" if skip == _ABSENT else ":skip_tokens=" + ("None" if skip is None else
+                                                        ("empty" if not skip[1] else "+".join(skip[1])))
+
     def case(smart, toks=None):
         c = G.to_case(cfg, start, prods, smart=smart, L=L)
         if toks is not None:
             c["input"] = [list(t) for t in toks]
+        if skip != _ABSENT:
+            c["skip"] = skip
         return c
+
+    def make(smart):
+        return H.build(cfg, start, prods, smart) if skip == _ABSENT else H.build(cfg, start, prods, smart,
+                                                                                  skip=skip)
 
     for smart in modes:
         with H.Watchdog():
             try:
-                res, p = H.build(cfg, start, prods, smart)
+                res, p = make(smart)
             except H.Abort:
                 res, p = "abort:watchdog", None
             acc.trans()
@@ -255,9 +342,11 @@ def check_grammar(cfg, start, prods, L, inputs, acc, modes=(True, False)):
                 continue
             done[smart] = state
             if lang is None:
-                lang = G.lang_bounded(pm, L)[start]
-            for toks in inputs:
-                names = tuple(n for n, _ in toks)
+                lang_all = G.lang_bounded(pm, L)
+                lang = lang_all[start]
+            for toks in ([] if only_sequence else inputs):
+                # the token sequence of a text: its tokens that are not skipped as configured
+                names = tuple(n for n, _ in toks if n not in skipped)
                 member = names in lang
                 try:
                     r, root = H.parse(p, cfg, toks)
@@ -272,7 +361,10 @@ def check_grammar(cfg, start, prods, L, inputs, acc, modes=(True, False)):
                     members += 1
                     feats.append(f"obliged:{why}:member")
                     if r == "tree":
-                        bad = G.validate_tree(root, pm, terms, start, toks)
+                        if skip != _ABSENT and len(names) == len(toks) and "SPACE" in names:
+                            feats.append("config:sentence-with-blank-token")
+                        bad = G.validate_tree(root, pm, terms, start,
+                                              toks if not skipped else tuple(t for t in toks if t[0] not in skipped))
                         shape = G.tree_shape(root)
                         if bad is not None:
                             acc.violation("C02:sentence-parsed-to-invalid-tree:" + bad[0], case(smart, toks),
@@ -281,9 +373,10 @@ def check_grammar(cfg, start, prods, L, inputs, acc, modes=(True, False)):
                                           repr(shape), "the unique derivation tree")
                         shapes.setdefault(toks, {})[smart] = shape
                     else:
+                        wrong_fresh.add(toks)
                         if diag is None:
                             diag = H.table_diagnosis(p, start)
-                        acc.violation(f"C02:sentence-rejected:{why}:{diag}", case(smart, toks),
+                        acc.violation(f"C02:sentence-rejected:{why}:{diag}{opt}", case(smart, toks),
                                       f"{cfg.text(toks)!r} is a sentence of {G.show(prods)} "
                                       f"({'LL(1) as written' if ll1 else 'table reported conflict-free'}, "
                                       f"smart_factorization={smart}) but parse raised {r}", r, "a tree")
@@ -291,9 +384,10 @@ def check_grammar(cfg, start, prods, L, inputs, acc, modes=(True, False)):
                     non_members += 1
                     feats.append(f"obliged:{why}:non-member")
                     if r == "tree":
+                        wrong_fresh.add(toks)
                         if diag is None:
                             diag = H.table_diagnosis(p, start)
-                        acc.violation(f"C02:non-sentence-accepted:{why}:{diag}", case(smart, toks),
+                        acc.violation(f"C02:non-sentence-accepted:{why}:{diag}{opt}", case(smart, toks),
                                       f"{cfg.text(toks)!r} is not a sentence of {G.show(prods)} "
                                       f"(smart_factorization={smart}) but parse returned a tree",
                                       repr(G.tree_shape(root)), "ParsingError")
@@ -313,6 +407,51 @@ def check_grammar(cfg, start, prods, L, inputs, acc, modes=(True, False)):
                                   f"is_ambiguous() of the LL(1) grammar {G.show(prods)} "
                                   f"(smart_factorization={smart}) was False after construction and is "
                                   f"{amb2} after parsing all token strings of length <= {L}", amb2, False)
+            # ---- call sequences on one parser object: a plain parse() must not depend on earlier calls
+            if seq_len >= 2 or only_sequence:
+                sequences = [only_sequence] if only_sequence else _call_sequences(pm, start, inputs, skipped,
+                                                                                  lang_all, seq_len)
+                for seq in sequences:
+                    res2, p2 = make(smart)
+                    acc.trans()
+                    if res2 != "ok":
+                        break
+                    feats.append("history:override-then-plain-parse")
+                    prev_tree = False
+                    for ci, (ps, toks) in enumerate(seq):
+                        toks = tuple(tuple(t) for t in toks)
+                        try:
+                            r, root = H.parse(p2, cfg, toks, start_symbol=ps)
+                        except H.Abort:
+                            r, root = "abort:watchdog", None
+                        acc.trans()
+                        if r.startswith("abort"):
+                            break
+                        if ps is not None:
+                            prev_tree = prev_tree or r == "tree"
+                            feats.append("history:override-call-" + ("returned-tree" if r == "tree" else "failed"))
+                            continue          # an overridden start symbol carries no language obligation
+                        if not any(c[0] is not None for c in seq[:ci]) or toks in wrong_fresh:
+                            continue
+                        n_cmp += 1
+                        names = tuple(n for n, _ in toks if n not in skipped)
+                        member = names in lang
+                        if member == (r == "tree") and (member or r == "ParsingError"):
+                            continue
+                        c = case(smart)
+                        c["sequence"] = [[c_[0], [list(t) for t in c_[1]]] for c_ in seq[:ci + 1]]
+                        what = "sentence-rejected" if member else "non-sentence-accepted"
+                        acc.violation("C02:plain-parse-depends-on-earlier-calls:" + what, c,
+                                      f"{G.show(prods)} (smart_factorization={smart}): after "
+                                      + ", ".join(f"parse({cfg.text(tuple(tuple(t) for t in c_[1]))!r}"
+                                                  + (f", start_symbol_name={c_[0]!r})" if c_[0] else ")")
+                                                  for c_ in seq[:ci])
+                                      + f" on the same parser object, parse({cfg.text(toks)!r}) "
+                                      + (f"raised {r} although the text is a sentence" if member else
+                                         f"gave {r} although the text is not a sentence")
+                                      + " (a fresh parser judges it correctly)", r,
+                                      "a tree" if member else "ParsingError")
+                        break
     for toks, by_mode in shapes.items():
         if len(by_mode) == 2 and by_mode[True] != by_mode[False]:
             acc.violation("C02:modes-return-different-trees", case("both", toks),
@@ -329,11 +468,16 @@ def run_shard(shard, tier, seed, acc):
     inputs = G.all_inputs(cfg, L)
     fam = "family:" + sp[0]
     orders = (False, True) if sp[0] in _BOTH_ORDERS else (False,)
+    skips = _skip_options(tier) if sp[0] == "blank" else (_ABSENT,)
+    seq_len = _SEQ_LEN[tier].get(sp[0], 0)
+    if tier == "quick" and i == 0:
+        seq_len = 3
     n = 0
     for prods0 in gen:
-        for rev in orders:
+        for rev, skip in itertools.product(orders, skips):
             prods = tuple(reversed(prods0)) if rev else prods0
-            feats, nt, out, n_cmp = check_grammar(cfg, "E", prods, L, inputs, acc)
+            feats, nt, out, n_cmp = check_grammar(cfg, "E", prods, L, inputs, acc, skip=skip,
+                                                  seq_len=0 if rev else seq_len)
             if rev:
                 feats.append("order:start-symbol-last")
             if sp[0] in ("diverge", "prefix") and G.non_monotone_divergence(dict(prods)):
@@ -357,7 +501,11 @@ def replay(case, acc):
     else:
         inputs = G.all_inputs(cfg, L)
     modes = (True, False) if case.get("smart", "both") == "both" else (bool(case["smart"]),)
-    feats, nt, out, n_cmp = check_grammar(cfg, start, prods, L, inputs, acc, modes=modes)
+    seq = None
+    if case.get("sequence"):
+        seq = tuple((c[0], tuple(tuple(t) for t in c[1])) for c in case["sequence"])
+    feats, nt, out, n_cmp = check_grammar(cfg, start, prods, L, inputs, acc, modes=modes,
+                                          skip=case["skip"] if "skip" in case else _ABSENT, only_sequence=seq)
     acc.case(nontrivial=nt, features=feats, outcome=out, traces=n_cmp)
 
 
